@@ -193,6 +193,89 @@ pub fn hook_auth_case(len: usize) -> Case {
     }
 }
 
+/// Channel identifiers across the whole u64 range and in every spelling the validation accepts.
+pub fn channel_ids() -> Vec<&'static str> {
+    vec!["channel-0", "channel-7", "channel-007", "channel-+7", "channel-9", "channel-123", "channel-4294967295", "channel-4294967296", "channel-4294967303", "channel-4294967419", "channel-9223372036854775807", "channel-18446744073709551615"]
+}
+
+/// C09 over configurations: with channel `i` configured (at instantiation, or by an update from another channel) the
+/// ibc-hooks accounts of the staker / collector on channel `i` (derived by the harness's own implementation, for the
+/// identifier exactly as configured) are accepted and the accounts of the same native senders on every other
+/// identifier of `channel_ids` are refused, by both Receive* handlers.
+pub fn channel_auth_case(i: usize, via_update: bool) -> Case {
+    Case {
+        name: format!("cfgmat:hookauth:channel:{}:{}", channel_ids()[i], if via_update { "update" } else { "init" }),
+        run: Box::new(move |f: &Filter, _mw: bool| {
+            let who = Who::new(false);
+            let ids = channel_ids();
+            let fee = Uint128::new(symcore::var("fee_rate"));
+            let min = Uint128::new(symcore::var("min_stake"));
+            let mut msg = scen::init_msg(&who, &CfgSpec { treasury: false, oracle: false, same_prefix: false, stopped: false }, fee, min);
+            if !via_update {
+                msg.protocol_chain_config.ibc_channel_id = ids[i].to_string();
+            }
+            msg.monitors = vec![];
+            let proto = msg.protocol_chain_config.clone();
+            let (mut chain, ok) = instantiate_with(msg, &who);
+            claim(f, "C09:every `channel-<u64>` identifier is accepted by configuration validation", ok);
+            if !ok {
+                symcore::note("outcome=err".into());
+                return;
+            }
+            if via_update {
+                let mut p = proto.clone();
+                p.ibc_channel_id = ids[i].to_string();
+                let r = chain.execute(&who.admin.clone(), &[], ExecuteMsg::UpdateConfig { native_chain_config: None, protocol_chain_config: Some(p), protocol_fee_config: None, monitors: None, batch_period: None });
+                claim(f, "C09:every `channel-<u64>` identifier is accepted by a configuration update", r.is_ok());
+            }
+            {
+                let st = &mut chain.deps.storage;
+                let mut cfg = staking::state::CONFIG.load(st).unwrap();
+                claim(f, "C09:the stored channel is the configured identifier, verbatim", cfg.protocol_chain_config.ibc_channel_id == ids[i]);
+                cfg.stopped = false;
+                staking::state::CONFIG.save(st, &cfg).unwrap();
+                let mut state = staking::state::STATE.load(st).unwrap();
+                state.total_native_token = Uint128::new(1000);
+                state.total_liquid_stake_token = Uint128::new(1000);
+                staking::state::STATE.save(st, &state).unwrap();
+                let mut b = staking::state::BATCHES.load(st, 1).unwrap();
+                b.update_status(milky_way::staking::BatchStatus::Submitted, Some(0));
+                b.expected_native_unstaked = Some(Uint128::new(10));
+                staking::state::BATCHES.save(st, 1, &b).unwrap();
+            }
+            let x = Uint128::new(symcore::var("x"));
+            symcore::assume(crate::t::le(&crate::t::ut(x), crate::t::E27));
+            symcore::assume(crate::t::ge(&crate::t::ut(x), "1"));
+            let funds = [crate::world::coin(addr::NATIVE_DENOM, x)];
+            let unauthorized = |r: &crate::world::Tx| matches!(r, crate::world::Tx::Err(e) if e.contains("Unauthorized"));
+            // every other identifier first (an accepted ReceiveUnstakedTokens consumes the batch)
+            let order: Vec<usize> = (0..ids.len()).filter(|j| *j != i).chain(std::iter::once(i)).collect();
+            for j in order {
+                let hs = addr::hook_sender(ids[j], &who.staker, &who.pp);
+                let hc = addr::hook_sender(ids[j], &who.collector, &who.pp);
+                let rr = chain.execute(&hc, &funds, ExecuteMsg::ReceiveRewards {});
+                let ru = chain.execute(&hs, &funds, ExecuteMsg::ReceiveUnstakedTokens { batch_id: 1 });
+                for r in [&rr, &ru] {
+                    if let crate::world::Tx::Panic(p) = r {
+                        symcore::prove(&format!("C16:no panic [{}]", crate::step::panic_key(p)), "false".into());
+                    }
+                }
+                if j == i {
+                    claim(f, "C09:ReceiveRewards accepts the collector's ibc-hooks account of the configured channel", !unauthorized(&rr) && !matches!(rr, crate::world::Tx::Panic(_)));
+                    claim(f, "C09:ReceiveUnstakedTokens accepts the staker's ibc-hooks account of the configured channel", !unauthorized(&ru) && !matches!(ru, crate::world::Tx::Panic(_)));
+                } else {
+                    claim(f, "C09:ReceiveRewards refuses the collector's account derived for any other channel identifier", unauthorized(&rr));
+                    claim(f, "C09:ReceiveUnstakedTokens refuses the staker's account derived for any other channel identifier", unauthorized(&ru));
+                }
+                // crossed roles are refused as well
+                let cross = chain.execute(&hs, &funds, ExecuteMsg::ReceiveRewards {});
+                claim(f, "C09:ReceiveRewards refuses the staker's ibc-hooks account", unauthorized(&cross));
+            }
+            symcore::note("outcome=ok".into());
+        }),
+    }
+}
+
 pub fn cases(tier: &str) -> Vec<Case> {
     let mut v = vec![];
     let cfgs = if tier == "thorough" { vec![CfgSpec::base(), CfgSpec { same_prefix: true, ..CfgSpec::base() }] } else { vec![CfgSpec::base(), CfgSpec { same_prefix: true, ..CfgSpec::base() }] };
@@ -203,6 +286,10 @@ pub fn cases(tier: &str) -> Vec<Case> {
     }
     for len in [1usize, 2, 40, 82, 83, 84, 85, 200] {
         v.push(hook_auth_case(len));
+    }
+    for i in 0..channel_ids().len() {
+        v.push(channel_auth_case(i, false));
+        v.push(channel_auth_case(i, true));
     }
     v
 }
